@@ -98,6 +98,14 @@ def check_vecrot(r) -> list[Fail]:
     err = np.max(np.abs(_unit(v1) @ R - _unit(v2)))
     if err > 1e-6:
         fails.append(Fail(f"vecrot:does-not-map-v1-to-v2:{mode}", f"[{cls}] v1={v1} v2={v2}: |v1n@R - v2n|={err:.2e}"))
+    np.random.seed(r["npseed"])
+    R_raw = rotation_matrix_from_vectors(v1.copy(), v2.copy(), **kw)
+    if isinstance(R_raw, np.ndarray) and R_raw.flags.writeable and not fails:
+        R_raw *= -1.0
+        np.random.seed(r["npseed"])
+        R_again = np.asarray(rotation_matrix_from_vectors(v1.copy(), v2.copy(), **kw), dtype=float)
+        if not np.array_equal(R_again, R):
+            fails.append(Fail("vecrot:second-request-returns-the-matrix-the-caller-scribbled-on", f"[{cls}] v1={v1} v2={v2}"))
     return fails
 
 
@@ -145,6 +153,14 @@ def check_axisrot(r) -> list[Fail]:
     K = np.array([[0, -a[2], a[1]], [a[2], 0, -a[0]], [-a[1], a[0], 0]])
     if np.max(np.abs((R - R.T) / 2 - math.sin(th) * K)) > 1e-9:
         fails.append(Fail("axisrot:wrong-sense", f"axis={ax} angle={th}: antisymmetric part is not sin(angle)*[axis]x (Rodrigues form cited by the docstring)"))
+    # what is returned belongs to the caller: writing into it must not change what the next request for the same rotation returns
+    R_raw = rotation_matrix_from_axis(ax_given.copy(), th)
+    if isinstance(R_raw, np.ndarray) and R_raw.flags.writeable:
+        R_raw *= -1.0
+        R_raw[0, 0] = 12345.0
+        R_again = np.asarray(rotation_matrix_from_axis(ax_given.copy(), th), dtype=float)
+        if not np.array_equal(R_again, R):
+            fails.append(Fail("axisrot:second-request-returns-the-matrix-the-caller-scribbled-on", f"axis={ax} angle={th}"))
     return fails
 
 
@@ -525,6 +541,28 @@ def check_align(r) -> list[Fail]:
         Rp = _proper_R(pose_seed)
         return c @ Rp + np.random.default_rng(pose_seed).normal(size=3) * 5
 
+    if r["kind"] == "ensemble_selfref":
+        # the reference is a LIVE view of the ensemble that is being aligned: the core of its own conformer 1 (every conformer centred on
+        # its core first, as the docstring asks).  What counts is the reference as it was when the call was made.
+        rng0 = np.random.default_rng(r["rseed"])
+        nc = 3
+        confs = []
+        for j in range(nc):
+            rng0 = np.random.default_rng(r["rseed"] + j)     # (each conformer its own small distortion of the core)
+            c_ = make_coords(r["pose1"] + 17 * j)
+            confs.append(c_ - c_[idx0].mean(axis=0))
+        e = chem.build_ensemble(dict(big, confs=[c.tolist() for c in confs], weights=[1.0] * nc, conf_charges=[[0.0] * n] * nc))
+        ref0 = np.array(e.coords[1][idx0], dtype=float)
+        refview = e[1].substructure(idx0)
+        got = e.align_to_ref_coords(func, [idx0], refview, vec)
+        final = np.array(e.coords, dtype=float)
+        shift = np.array(vec) if vec is not None else 0
+        for j in range(nc):
+            ach = float(np.sqrt(np.mean(np.sum((final[j][idx0] - shift - ref0) ** 2, axis=1))))
+            if abs(got[j] - ach) > 1e-6:
+                fails.append(Fail("align:ensemble:reported-rmsd-is-not-the-achieved-one:reference-is-a-view-of-the-ensemble", f"conformer {j}: returned {got[j]:.8f}, recomputed {ach:.8f} (vec {vec})"))
+                break
+        return fails
     results = []
     for pose in (r["pose1"], r["pose2"]):
         rng0 = np.random.default_rng(r["rseed"])   # same noise for both poses
@@ -570,7 +608,7 @@ def strat_align(tier):
     ref = chem.molecule_recipe(max_atoms=7, max_bonds=0, attribs=False, full=False, special_coords=False, min_atoms=3).map(_spread)
     big = chem.molecule_recipe(max_atoms=14, max_bonds=6, attribs=False, full=False, special_coords=False, min_atoms=7).map(_spread)
     return st.fixed_dictionaries({
-        "kind": st.sampled_from(["molecule", "ensemble", "ensemble_diffpose"]), "ref": ref, "mol": big,
+        "kind": st.sampled_from(["molecule", "ensemble", "ensemble_diffpose", "ensemble_selfref"]), "ref": ref, "mol": big,
         "embed": st.lists(st.integers(0, 40), min_size=7, max_size=7, unique=True), "two_sets": st.booleans(),
         "vec": st.one_of(st.none(), st.lists(st.floats(-5, 5), min_size=3, max_size=3)),
         "alt_first": st.booleans(), "func": st.sampled_from(["plain", "centering"]), "two_sites": st.booleans(),
